@@ -232,7 +232,7 @@ def h_sub_task(sk, subgoals, initial, include_abs, clip):
             all(o.is_initial(s) == (s in initial) and o.is_terminal(s) == (s in subgoals) for s in sk.states) and o.name == 'o1' and o.max_steps == 7))
 
 
-def h_semimdp(sk, pkind, terminal, start, nsim, include_actions):
+def h_semimdp(sk, pkind, terminal, start, nsim, include_actions, smdp_seed=5):
     mdp, v = M.make_mdp(sk, gamma='sym', numeric='generic')
     mdp.discount_rate = v.gamma
     uses = []
@@ -241,7 +241,7 @@ def h_semimdp(sk, pkind, terminal, start, nsim, include_actions):
         policy, table = option_policy(sk, pkind)
         o = SimpleOption(policy, set(terminal), 6, name='go', initial_states={0, 1, 3})
         o2 = SimpleOption(policy, {0}, 6, name='back', initial_states={4})
-        sm = smdp.SemiMarkovDecisionProcess(mdp=mdp, options=[o, o2], n_option_simulations=nsim, include_mdp_actions=include_actions, seed=5)
+        sm = smdp.SemiMarkovDecisionProcess(mdp=mdp, options=[o, o2], n_option_simulations=nsim, include_mdp_actions=include_actions, seed=smdp_seed)      # 0 is a legal fixed seed
         for s in sk.states:
             want = [x for x in (o, o2) if x.is_initial(s)]
             got = list(sm.actions(s))
@@ -466,6 +466,68 @@ def h_option_run_U():
                 S.And([S.truth(isinstance(res, Result)), S.SymBool(Term(res.final.e)), S.lt(k + 1, M_, tol=0)]))
 
 
+def rt_semimdp_consistency(seed, n):
+    """R: for every seed setting (a fixed seed INCLUDING 0, and None) the outcome distribution of an option equals the empirical distribution of the
+    semi-MDP's own simulations -- asked for before and after, on the same object; with a fixed seed nothing depends on or disturbs the ambient generator"""
+    import random
+    from msdm.core.mdp import TabularMarkovDecisionProcess
+    from msdm.core.distributions import DictDistribution as D
+    rnd = random.Random('smdp/%s' % seed)
+    out = []
+
+    class Corridor(TabularMarkovDecisionProcess):
+        discount_rate = 0.9
+        def __init__(self, slip): self.slip = slip
+        def initial_state_dist(self): return D({0: 1.0})
+        def actions(self, s): return ('r', 'l')
+        def is_absorbing(self, s): return s == 4
+        def next_state_dist(self, s, a):
+            n = min(4, s + 1) if a == 'r' else max(0, s - 1)
+            return D({n: 1.0}) if n == s else D({n: 1 - self.slip, s: self.slip})
+        def reward(self, s, a, ns): return -1.0 - 0.25 * s
+
+    def empirical(sims, g):
+        cnt = {}
+        for sim in sims:
+            steps = list(sim.steps)
+            G, disc = 0.0, 1.0
+            for st in steps[:-1]:
+                G += st['reward'] * disc
+                disc *= g
+            key = (steps[-1]['state'], len(steps) - 1, round(G, 9))
+            cnt[key] = cnt.get(key, 0) + 1
+        return {k: c / len(sims) for k, c in cnt.items()}
+
+    def as_dict(d):
+        return {(ns, t, round(float(r), 9)): float(p) for (ns, t, r), p in d.items()}
+
+    def close(a, b):
+        return set(a) == set(b) and all(abs(a[k] - b[k]) < 1e-9 for k in a)
+    for k in range(n):
+        mdp = Corridor(rnd.choice([0.2, 0.5]))
+        policy = pol.FunctionalPolicy(lambda s: D({'r': 0.7, 'l': 0.3}))
+        o = SimpleOption(policy, {3, 4}, 200, name='to-3')
+        for sd in (0, 7, None):
+            nsim = rnd.choice([3, 8])
+            random.seed(1000 + k)
+            st0 = random.getstate()
+            sm = smdp.SemiMarkovDecisionProcess(mdp=mdp, options=[o], n_option_simulations=nsim, seed=sd)
+            d1 = as_dict(sm.next_state_transit_time_reward_dist(1, o))
+            sims = sm.run_simulations(1, o)
+            d2 = as_dict(sm.next_state_transit_time_reward_dist(1, o))
+            emp = empirical(sims, mdp.discount_rate)
+            w = dict(seed=sd, nsim=nsim, slip=mdp.slip, d1=repr(d1), emp=repr(emp), d2=repr(d2))
+            out.append(dict(name='rt:SemiMDP:outcome-distribution-equals-the-empirical-distribution-of-its-own-simulations(any-seed-setting,asked-twice)',
+                            ok=close(d1, emp) and close(d2, emp) and abs(sum(d1.values()) - 1) < 1e-9, witness=w))
+            if sd is not None:
+                untouched = random.getstate() == st0
+                random.seed(77 + k)       # a different ambient state must not matter
+                sm2 = smdp.SemiMarkovDecisionProcess(mdp=mdp, options=[o], n_option_simulations=nsim, seed=sd)
+                d3 = as_dict(sm2.next_state_transit_time_reward_dist(1, o))
+                out.append(dict(name='rt:SemiMDP:fixed-seed(incl. 0):reproducible-and-isolated-from-the-ambient-generator', ok=untouched and close(d1, d3), witness=dict(w, d3=repr(d3), untouched=untouched)))
+    return out
+
+
 def rt_plan_to_subgoal(seed, n):
     """R: PlanToSubgoalOption plans on the sub-task with the base discount (un-stubbed ValueIteration), policy reaches the sub-goal"""
     from msdm.algorithms import ValueIteration
@@ -526,6 +588,8 @@ def tasks(tier, seed):
         for clip in (False, True):
             T.append(Task('U/sub_task/abstract-base/inc%d/clip%d' % (inc, clip), h_sub_task_U, (inc, clip), tier='U', note='abstract sub-goal and initiation sets'))
     T.append(Task('U/option_run/by-callee-contract', h_option_run_U, (), tier='U', note='Policy.run_on replaced by its C14 tier-U contract; symbolic step limit'))
+    T.append(Task('semimdp/mixed/n2/inc0/seed0', h_semimdp, (cor, 'mixed', (4,), 1, 2, False, 0), tier='B', max_paths=6000, note='fixed seed 0'))
+    T.append(Task('rt/semimdp-seed-settings', rt_semimdp_consistency, (seed, 6 if tier == 'quick' else 40), tier='R', kind='rt'))
     T.append(Task('rt/plan-to-subgoal', rt_plan_to_subgoal, (seed, 6 if tier == 'quick' else 30), tier='R', kind='rt'))
     return T
 
